@@ -136,6 +136,7 @@ def register(op):
                 if k == "exterior_domains": return list(x.exterior_domains)
                 if k == "enclosed_domains": return list(x.enclosed_domains)
                 if k == "is_connected": return x.is_connected
+                if k == "is_domainlevel_complement": return x.is_domainlevel_complement
                 if k == "kernel_string": return x.kernel_string
                 if k == "size": return x.size
                 if k == "rotate": return [[names(s_), list(t_)] for s_, t_ in x.rotate()]
@@ -158,6 +159,13 @@ def register(op):
                     break
                 continue
             if k in ("turns", "sequence", "structure", "canonical_form"):
+                continue
+            if k == "split":            # consuming split() must leave every view of the object as it was
+                try:
+                    parts = list(c.split())
+                except Exception:
+                    parts = None
+                del parts
                 continue
             arg = o[1] if len(o) > 1 else None
             got = view(c, k, arg)
